@@ -11,6 +11,7 @@ impl Rep {
         *self.fc.entry((ob.to_string(), class.to_string())).or_insert(0) += 1;
         if self.fails.iter().filter(|f| f.0 == ob && f.1 == class).count() < 3 { self.fails.push((ob.to_string(), class.to_string(), input.to_string(), detail)); }
     }
+    pub fn failures_is_empty(&self) -> bool { self.fails.is_empty() }
     pub fn sample(&mut self, s: &str) { if self.samples.len() < 3 { self.samples.push(s.to_string()); } }
     pub fn finish(self) {
         let esc = |s: &str| s.replace('\\', "\\\\").replace('"', "\\\"").replace('\n', " ");
